@@ -1,4 +1,4 @@
-PENDING.update({k: "check not built yet at this commit (planned, see DESIGN.md section 5)" for k in ["C07","C10","C11","C12","C15","C18","C20"]})
+PENDING.update({k: "check not built yet at this commit (planned, see DESIGN.md section 5)" for k in ["C07","C10","C11","C12","C18","C20"]})
 check("C01", "exploration",
   "Seeded search: every run executes one (generated variant, operation, variables, resolver-outcome plan, release order) of servers generated at check time from /repo's templates, with each resolver/directive call parked and released by the scheduler, and compares data (key order kept) and the error multiset with an independent reference executor. Sampling, not proof; right level because the property is a refinement claim over an unbounded input space.",
   "Probe schemas instead of random schemas; reference executor + plan are the trusted model (parameters P1/P2 documented in DESIGN 3.5); gqlgen-authored messages matched by path only.",
@@ -23,3 +23,7 @@ check("C03", "exploration",
   "Histories of requests (valid documents and systematically invalidated variants, repeated so that caches hit) against one executor / handler.Server with seeded sets of instrumented extensions, cache kinds and suggestion settings, launched sequentially, overlapped or simultaneously; verdicts come from gqlparser alone; rejected requests must leave no interceptor/directive/resolver event, accepted ones must satisfy the lifecycle grammar and the reference executor; -race binary.",
   "Subscriptions excluded (their gate is in C11's scenario); the RemoveRule/ReplaceRule window has no seam and is covered through the race detector only.",
   "deterministic simulation: request-history search with lifecycle-grammar monitor + race detector", "5.3")
+check("C15", "exploration",
+  "Request histories over a small alphabet (4 texts x 7 request forms, POST and GET) against handler.Server+APQ with a harness cache that parks, evicts and drops; sequential histories are checked step by step against a 3-line model, overlapped ones with porcupine (linearizability against the same model), plus the invariant that every cache entry's key is the SHA-256 of its value.",
+  "The model treats PersistedQueryNotFound as always legal for hash-only requests (eviction); porcupine timeouts are exit 2.",
+  "deterministic simulation: history search + porcupine linearizability against a reference model", "5.15")
